@@ -188,7 +188,7 @@ def difftest(run, rng, n):
     import operator
     total, mism, skipped = 0, [], 0
     for c in run.contracts:
-        if c.params is None or not c.verify_body:
+        if (c.params is None and not getattr(c, "sampler", None)) or not c.verify_body:
             continue
         done = 0
         tries = 0
@@ -233,6 +233,7 @@ def difftest(run, rng, n):
     # second pass: the *symbolic* result (models, encodings) evaluated at the concrete input
     from .zeval import zeval, Unevaluable
     from .sym import Sym
+    from .run import eval_clause_concrete
     import math
     sym_total = 0
     for c in run.contracts:
@@ -249,6 +250,8 @@ def difftest(run, rng, n):
             fa = _float_args(s)
             if not all(isinstance(v, (int, float)) for v in fa.values()):
                 break
+            if any(eval_clause_concrete(c, r, fa) is not True for r in c.requires):
+                continue
             sig = inspect.signature(c.fn_inner)
             b = sig.bind(**fa)
             kind, real = call_real(c.fn_inner, b.args, b.kwargs)
@@ -269,6 +272,8 @@ def difftest(run, rng, n):
                         continue
                     val = zeval(res.e, fa) if isinstance(res, Sym) else float(res)
                 except (Unevaluable, ZeroDivisionError, OverflowError, TypeError):
+                    continue
+                if float(val) != float(val) or math.isinf(float(val)):
                     continue
                 done += 1
                 sym_total += 1
